@@ -436,13 +436,15 @@ Qed.
 Lemma include_levels anc locals nm d v sd sv ch ts :
   load anc locals (RIncl nm d v sd sv ch) = Some ts ->
   exists n lvi sn lvs,
-    resolve_level anc locals nm d v = Some (n, lvi) /\
-    resolve_level (lvi :: anc) [] None sd sv = Some (sn, lvs) /\
+    resolve_level anc locals nm (decode d) (decode v) = Some (n, lvi) /\
+    resolve_level (lvi :: anc) [] None (decode sd) (decode sv) = Some (sn, lvs) /\
     forall a n' hid p, In (a, n', hid, p) (forest_nodes anc ts) ->
       exists roles, p = roles ++ lvs :: lvi :: anc.
 Proof.
-  cbn [load]. destruct (resolve_level anc locals nm d v) as [[n lvi]|] eqn:E1; [|discriminate].
-  destruct (resolve_level (lvi :: anc) [] None sd sv) as [[sn lvs]|] eqn:E2; [|discriminate].
+  cbn [load]. destruct (resolve_level anc locals nm (decode d) (decode v)) as [[n lvi]|] eqn:E1;
+    [|discriminate].
+  destruct (resolve_level (lvi :: anc) [] None (decode sd) (decode sv)) as [[sn lvs]|] eqn:E2;
+    [|discriminate].
   destruct (opt_concat_map _ ch) as [kids|]; [|discriminate].
   intro E. inversion E; subst. exists n, lvi, sn, lvs.
   split; [reflexivity|]. split; [exact E2|].
@@ -482,6 +484,45 @@ Proof.
     by (rewrite <- app_assoc; reflexivity).
   unfold chain. rewrite map_app. fold (chain l_defaults (roles ++ [lvs])).
   rewrite first_hit_app, Hd. cbn [map first_hit]. rewrite Hx. reflexivity.
+Qed.
+
+(* ---------- written forms ---------- *)
+(* whatever is written as a definition - plain scalar or annotated form, empty text included -
+   is an entry of the decoded map *)
+Lemma written_definition (w : wmap) k e v :
+  assoc k w = Some e -> entry_def e = Some v -> assoc k (decode w) = Some v.
+Proof.
+  induction w as [|[k' e'] r IH]; cbn [assoc decode]; [discriminate|].
+  destruct (str_eqb k k') eqn:E.
+  - intros H Hv. inversion H; subst e'. rewrite Hv. cbn [assoc]. rewrite E. reflexivity.
+  - intros H Hv. destruct (entry_def e'); [cbn [assoc]; rewrite E|]; apply IH; assumption.
+Qed.
+
+Lemma unwritten_undefined (w : wmap) k : assoc k w = None -> assoc k (decode w) = None.
+Proof.
+  induction w as [|[k' e'] r IH]; cbn [assoc decode]; [reflexivity|].
+  destruct (str_eqb k k') eqn:E; [discriminate|].
+  intro H. destruct (entry_def e'); [cbn [assoc]; rewrite E|]; apply IH; exact H.
+Qed.
+
+(* a literal written in a role's defaults / vars block, in either form, the empty text included,
+   is the role's own default / var (a var unless an iterator local of the same name replaces it) *)
+Lemma written_literal_in_defaults anc locals nm d v n lv k e s :
+  resolve_level anc locals nm (decode d) (decode v) = Some (n, lv) ->
+  assoc k d = Some e -> entry_def e = Some (VLit s) -> assoc k (l_defaults lv) = Some s.
+Proof.
+  intros H Hk He. eapply literal_in_defaults; [exact H|].
+  eapply written_definition; eassumption.
+Qed.
+
+Lemma written_literal_in_vars anc locals nm d v n lv k e s :
+  resolve_level anc locals nm (decode d) (decode v) = Some (n, lv) ->
+  assoc k v = Some e -> entry_def e = Some (VLit s) -> assoc k locals = None ->
+  assoc k (l_vars lv) = Some s.
+Proof.
+  intros H Hk He Hl. destruct (resolve_level_inv _ _ _ _ _ _ _ H) as (d' & v' & Ed & Ev & ->).
+  cbn [l_vars]. rewrite assoc_merge, Hl. unfold eval_map in Ev.
+  rewrite (assoc_eval_map _ _ _ k Ev), (written_definition _ _ _ _ Hk He). reflexivity.
 Qed.
 
 (* ---------- iterators ---------- *)
